@@ -349,6 +349,17 @@ def compare(it, op, a, b, node):
         if r is None:
             return VUnknown("in", "bool")
         return VConst(r if op == "In" else not r)
+    if op in ("Eq", "NotEq") and isinstance(a, VObj) and isinstance(b, VObj) and a.inst.ext == "torch.device" and b.inst.ext == "torch.device":
+        same = None
+        if a.inst is b.inst:
+            same = True
+        else:
+            ta_, tb_ = a.inst.attrs.get("type"), b.inst.attrs.get("type")
+            if isinstance(ta_, VConst) and isinstance(tb_, VConst):
+                same = ta_.value == tb_.value
+        if same is not None:
+            return VConst(same if op == "Eq" else not same)
+        return VUnknown("device-eq", "bool")
     if isinstance(a, VConst) and isinstance(b, VConst):
         try:
             return VConst(_CMP[op](a.value, b.value))
@@ -395,6 +406,9 @@ def tuple_eq(a, b):
     return res
 
 
+DIM_BOUNDS = {}
+
+
 def num_compare(op, a, b):
     ta, tb = num_term(a), num_term(b)
     if ta is None or tb is None:
@@ -402,6 +416,15 @@ def num_compare(op, a, b):
     d = (ta - tb).const_value()
     if d is not None:
         return _CMP[op](d, 0)
+    # a selection count never exceeds the length of the axis it was selected from (DIM_BOUNDS: count symbol -> that length)
+    for x, y, flip in ((ta, tb, False), (tb, ta, True)):
+        ax = x.single_atom()
+        if ax is not None and isinstance(ax, T.Sym) and ax.name in DIM_BOUNDS and DIM_BOUNDS[ax.name] == y:
+            # x <= y always
+            o = {"Lt": "Gt", "Gt": "Lt", "LtE": "GtE", "GtE": "LtE"}.get(op, op) if flip else op
+            r = {"Gt": False, "LtE": True}.get(o)
+            if r is not None:
+                return r
     # sign facts
     def facts(v):
         if isinstance(v, VConst):
